@@ -2,6 +2,7 @@ package ptracer
 
 import (
 	"context"
+	"errors"
 	"fmt"
 	"runtime"
 	"time"
@@ -185,7 +186,8 @@ func (ph *ptraceHandle) handle(pid int, wstatus unix.WaitStatus) (status runner.
 			ph.Handler.Debug("set ptrace option for", pid)
 			ph.traced[pid] = true
 			// Ptrace set option valid if the tracee is stopped
-			if err := setPtraceOption(pid); err != nil {
+			// ESRCH: the tracee was killed after this stop was reported; wait4 will report its end
+			if err := setPtraceOption(pid); err != nil && !errors.Is(err, unix.ESRCH) {
 				status = runner.StatusRunnerError
 				errStr = err.Error()
 				return
@@ -261,6 +263,11 @@ func (ph *ptraceHandle) handleTrap(pid int) error {
 	if ph.Handler != nil {
 		ctx, err := getTrapContext(pid)
 		if err != nil {
+			// ESRCH: the tracee died (exit_group / SIGKILL from another task) between the stop
+			// and this request. That is not a policy violation; wait4 will report how it ended.
+			if errors.Is(err, unix.ESRCH) {
+				return nil
+			}
 			return err
 		}
 		act := ph.Handler.Handle(ctx)
@@ -269,7 +276,10 @@ func (ph *ptraceHandle) handleTrap(pid int) error {
 		case TraceBan:
 			// Set the syscallno to -1 and return value into register to skip syscall.
 			// https://www.kernel.org/doc/Documentation/prctl/pkg/seccomp_filter.txt
-			return ctx.skipSyscall()
+			if err := ctx.skipSyscall(); err != nil && !errors.Is(err, unix.ESRCH) {
+				return err
+			}
+			return nil
 
 		case TraceKill:
 			return runner.StatusDisallowedSyscall
